@@ -2,7 +2,7 @@
 import json, os, re
 import vlib
 
-ALLOPS = '{"label", "face_query", "featval", "destroy_fval", "make_font", "destroy_font", "make_seg", "shape", "query_seg", "justify", "destroy_seg"}'
+ALLOPS = '{"label", "face_query", "featval", "edit_fval", "destroy_fval", "make_font", "destroy_font", "make_seg", "shape", "query_seg", "justify", "destroy_seg"}'
 
 
 def write_cfg(name, **kw):
